@@ -44,6 +44,23 @@ def run(ck: Check) -> None:
         if not (isinstance(env0, dict) and set(env0) == {"signatures", "signed"} and env0["signatures"] == {} and proto.deep_equal(env0["signed"], payload)):
             ck.violation("the wrapped envelope does not carry the payload unchanged with an empty signature map", {"payload": proto.enc(payload)[:600], "envelope": proto.enc(env0)[:800]}, "wrap-shape")
             continue
+        # wrapping copies: later changes to the caller's object do not reach the envelope
+        if isinstance(payload, (dict, list)) and payload:
+            live = copy.deepcopy(payload)
+            w = impl.signing.wrap_as_signable(live)
+            frozen = copy.deepcopy(w)
+            for pth in sorted([q for q in gen.json_paths(live) if q], key=len, reverse=True)[:6]:
+                try:
+                    cur = live
+                    for q in pth[:-1]:
+                        cur = cur[q]
+                    cur[pth[-1]] = "CHANGED-AFTER-WRAPPING"
+                except Exception:
+                    continue
+            ck.oracle_checks += 1
+            if not proto.deep_equal(w, frozen):
+                ck.violation("the wrapped envelope does not carry its own copy of the payload (changing the caller's object afterwards changed the envelope)",
+                             {"payload": proto.enc(payload)[:600]}, "wrap-aliasing")
         if rng.random() < 0.3:   # pre-populated envelope: foreign entries must survive
             env0["signatures"][gen.key(11).hex] = gen.raw_entry(gen.key(11), b"other")
             env0["signatures"]["junk"] = "x"
